@@ -71,51 +71,17 @@ structure InvA (cfg : Cfg) (np ns : Option Nat) (w : World) : Prop where
   clog : ∀ cn ∈ w.conns, ConnLog cfg.overflow cn
   gr : ∀ s S, getS w s = some S → ∀ e ∈ S.ghostRecv, some e.1 ≠ np ∧ ∃ P, getP w e.1 = some P
 
-/-! ### layer B -/
-
-def usedCnt (w : World) (p c : Nat) : Nat :=
-  (w.conns.filter fun cn => cn.pid = p ∧ cn.sAtt = true ∧ cn.used.getD c false = true).length
-
-def heldCh (S : Sub) (p : Nat) : List Nat := (S.held.filter (·.pid = p)).map (·.chunk)
-
-def inflight (fl : Option (Nat × Nat)) (p c : Nat) : Nat := if fl = some (p, c) then 1 else 0
-
-/-- chunks in flight on a connection: submission queue, completion queue, borrowed by the subscriber -/
-def inq (cn : Conn) (S : Sub) : List Nat := cn.sub.map (·.1) ++ cn.comp ++ heldCh S cn.pid
-
-/-- `fl = some (p, c)`: a `send` of publisher `p` is in progress with chunk `c` (the `SampleMut`
-holds one reference that is no longer listed in `loans`) -/
-structure InvB (fl : Option (Nat × Nat)) (w : World) : Prop where
-  lens : ∀ p P, getP w p = some P →
-    P.rc.length = P.n ∧ P.payload.length = P.n ∧ P.chunkSeq.length = P.n ∧ P.sent.length = P.seq
-  usedLen : ∀ cn ∈ w.conns, ∀ P, getP w cn.pid = some P → cn.used.length = P.n
-  free : ∀ p P, getP w p = some P → P.ex = true →
-    P.free.Nodup ∧ ∀ c, c ∈ P.free ↔ (c < P.n ∧ P.rc.getD c 0 = 0)
-  rc : ∀ p P, getP w p = some P → P.ex = true → ∀ c, c < P.n →
-    P.rc.getD c 0 = (P.loans.filter (·.2 = c)).length + (P.hist.filter (· = c)).length
-      + usedCnt w p c + inflight fl p c
-  loans : ∀ p P, getP w p = some P → P.ex = true →
-    (P.loans.map (·.1)).Nodup ∧ ∀ l c, (l, c) ∈ P.loans → c < P.n ∧ P.rc.getD c 0 = 1
-  histOk : ∀ p P, getP w p = some P → P.ex = true → ∀ c ∈ P.hist,
-    c < P.n ∧ P.payload.getD c 0 = P.sent.getD (P.chunkSeq.getD c 0) 0 ∧ P.chunkSeq.getD c 0 < P.seq
-  flOk : ∀ p c, fl = some (p, c) → ∃ P, getP w p = some P ∧ P.ex = true ∧ c < P.n
-  inqOk : ∀ cn ∈ w.conns, cn.sAtt = true → ∀ P S, getP w cn.pid = some P → P.ex = true →
-    getS w cn.sid = some S → (inq cn S).Nodup ∧ ∀ c ∈ inq cn S, cn.used.getD c false = true
-  unatt : ∀ cn ∈ w.conns, cn.sAtt = false → ∀ P, getP w cn.pid = some P → P.ex = true →
-    ∀ c, cn.used.getD c false = false
-  ppi : ∀ cn ∈ w.conns, ∀ P S, getP w cn.pid = some P → getS w cn.sid = some S →
-    (cn.sAtt = true ∨ S.alive = true) → ∀ ch q, (ch, q) ∈ cn.sub →
-    P.payload.getD ch 0 = P.sent.getD q 0 ∧ q < P.seq
-
 /-! ### layer C -/
 
 /-- `fq = some (p, q)`: sample number `q` of publisher `p` is being delivered (the `send` call has
-not yet visited all connections) -/
-structure InvC (fq : Option (Nat × Nat)) (w : World) : Prop where
-  hmono : ∀ p P, getP w p = some P → (P.hist.map fun c => P.chunkSeq.getD c 0).Pairwise (· < ·)
+not yet visited all connections).  `hx = some (p, s)`: the history is being delivered into the
+connection `(p, s)` (its `gHist` is not yet a prefix of `gDelivered`). -/
+structure InvC (fq : Option (Nat × Nat)) (hx : Option (Nat × Nat)) (w : World) : Prop where
+  hmono : ∀ p P, getP w p = some P → (P.hist.map fun c => P.chunkSeq.getD c 0).Pairwise (· < ·) ∧
+    ∀ c ∈ P.hist, P.chunkSeq.getD c 0 < P.seq
   dlt : ∀ cn ∈ w.conns, ∀ P, getP w cn.pid = some P →
     (∀ q ∈ cn.gDelivered, q < P.seq) ∧ cn.gDelivered.Pairwise (· < ·)
-  hfirst : ∀ cn ∈ w.conns, cn.sAtt = true → ∀ P, getP w cn.pid = some P →
+  hfirst : ∀ cn ∈ w.conns, cn.sAtt = true → some (cn.pid, cn.sid) ≠ hx → ∀ P, getP w cn.pid = some P →
     cn.gFirst ≤ P.seq ∧ cn.gHist <+: cn.gDelivered ∧ (∀ q ∈ cn.gHist, q < cn.gFirst) ∧
     (∀ q ∈ cn.gDelivered, q < cn.gFirst → q ∈ cn.gHist) ∧ cn.gHist.length ≤ cn.cap
   nlost : ∀ p P, getP w p = some P → P.ex = true → ∀ (i : Nat) s, P.conns[i]? = some (some s) →
